@@ -75,7 +75,7 @@ fn pick_faults(rng: &mut Rng) -> (Faults, String) {
         }
     };
     match rng.usize(10) {
-        0 => { f.notify_status = Some(*rng.pick(&[404u16, 500, 503, 403])); names.push("notify-status".into()); }
+        0 => { let c = *rng.pick(&[404u16, 500, 503, 403, 304, 304]); f.notify_status = Some(c); names.push(if c == 304 { "notify-304-unconditionally".into() } else { "notify-status".into() }); }
         1 => { f.notify_broken_xml = true; names.push("notify-broken-xml".into()); }
         2 => pick_snapshot(rng, &mut f, &mut names),
         3..=6 => {
@@ -195,8 +195,12 @@ fn run_c25(ctx: &mut Ctx, rep: &mut Report) {
                 match read_local(&config.cache_dir) {
                     Err(e) => rep.violation("C25/updated-but-unreadable", format!("update reported successful but the local copy: {e}"), json!({"trace": trace})),
                     Ok((session, serial, objs)) => {
-                        let same_version = session == srv.session && serial == srv.serial;
-                        if objs != srv.objects || !same_version {
+                        // A server that answers 304 whatever is asked notifies nothing: the version it vouches for is the
+                        // one the client last fetched from it.
+                        let vouched: &RrdpServer = if faults.notify_status == Some(304) { match last_good.as_ref() { Some(g) => g, None => &srv } } else { &srv };
+                        let same_version = session == vouched.session && serial == vouched.serial;
+                        if objs != vouched.objects || !same_version {
+                            let srv = vouched;
                             let ctxt = if prev_outcome != "updated" && prev_outcome != "none" { format!("after-failed-update[{prev_faults}]") } else { "after-good-update".to_string() };
                             let sig = format!("C25/updated-but-divergent{how}/{}", if ctxt.starts_with("after-failed") { "after-failed-update" } else { "after-good-update" });
                             rep.violation(sig, format!(
@@ -206,11 +210,16 @@ fn run_c25(ctx: &mut Ctx, rep: &mut Report) {
                         } else { rep.count("updated_and_equal", 1); }
                     }
                 }
+            } else if res.is_err() {
+                // nothing in this harness damages the local files: a failed *run* can only come from what the server sent
+                rep.violation(format!("C25/run-failed-on-server-behaviour/{}", fname.split('+').next().unwrap_or("")), format!(
+                    "load_repository returned a run failure (aborting the whole validation run) instead of reporting the repository as not updated; server op {op}, faults {fname}, previous outcome {prev_outcome}"),
+                    json!({"trace": trace, "seed": ctx.seed, "shard": ctx.shard, "sequence": seq}));
             } else if fname == "none" || fname == "no-etag" {
                 rep.count("healthy_step_not_updated", 1);
                 if rep.samples.len() < 4 { rep.sample(json!({"healthy_step_not_updated": trace.last()})); }
             }
-            if outcome == "updated" { last_good = Some(srv.clone()); }
+            if outcome == "updated" && faults.notify_status != Some(304) { last_good = Some(srv.clone()); }
             prev_outcome = outcome.to_string();
             prev_faults = fname.clone();
         }
